@@ -23,7 +23,7 @@ ASSUMPTIONS = ['closed feature intervals [start,end]; a range query [a,b] with a
                'strand convention for FeatureAnnotatedMolecule as documented (None unstranded, False same strand as R1, True other strand); SingleEndTranscriptFragment only checked unstranded']
 MIN_NONTRIVIAL = {'quick': 3000, 'thorough': 1000000}
 REQUIRED_MONITORS = ['ret:findFeaturesAt', 'ret:findFeaturesBetween', 'ret:findFeaturesAtPysamAlign0', 'ret:findFeaturesAtPysamAlign1',
-                     'ret:molecule.annotate0', 'ret:molecule.annotate1', 'ret:fragment.annotate', 'history:second_round_queries', 'universe:near_or_beyond_2^31', 'history:queried_without_explicit_sort', 'history:round_adding_to_one_contig_only']
+                     'ret:molecule.annotate0', 'ret:molecule.annotate1', 'ret:fragment.annotate', 'history:second_round_queries', 'universe:near_or_beyond_2^31', 'history:queried_without_explicit_sort', 'history:round_adding_to_one_contig_only', 'reads:aligned_bases_spelled_eq_x_only']
 
 
 def gen_cases(tier, seed):
@@ -56,14 +56,30 @@ def near(feats, contig, x):
 def random_cigar(r, maxlen):
     ops = []
     n = r.randint(1, 4)
+    # how aligned bases are spelled: M, the extended = / X (minimap2 --eqx), or a mix
+    spelling = r.choice(['M', 'M', 'M', 'eqx', 'mixed'])
+    hard = r.random() < 0.15
+    if hard:
+        ops.append((r.randint(1, 9), 'H'))
     if r.random() < 0.3:
         ops.append((r.randint(1, 4), 'S'))
     for j in range(n):
-        ops.append((r.randint(1, maxlen), 'M'))
+        ln = r.randint(1, maxlen)
+        if spelling == 'M' or (spelling == 'mixed' and r.random() < 0.5):
+            ops.append((ln, 'M'))
+        else:
+            k = r.randint(0, ln - 1)
+            for l_, o_ in ((k, '='), (1, 'X'), (ln - k - 1, '=')):
+                if l_ and not (ops and ops[-1][1] == o_):
+                    ops.append((l_, o_))
+                elif l_:
+                    ops[-1] = (ops[-1][0] + l_, o_)
         if j < n - 1:
             ops.append((r.randint(1, 12), r.choice('NNDI')))
     if r.random() < 0.3:
         ops.append((r.randint(1, 4), 'S'))
+    if hard and r.random() < 0.5:
+        ops.append((r.randint(1, 9), 'H'))
     return ''.join(f'{l}{o}' for l, o in ops)
 
 
@@ -192,6 +208,8 @@ def run_case(case):
             a.set_tag('RX', 'ACG')
             positions = [p for _, p in a.get_aligned_pairs(matches_only=True)]
             desc = {'contig': c, 'pos': a.reference_start, 'cigar': a.cigarstring, 'reverse': rev}
+            if 'M' not in a.cigarstring:
+                acc.count('reads:aligned_bases_spelled_eq_x_only')
             for st in (None, '+', '-'):
                 exp = brute_positions(feats, c, positions, st)
                 for method in (0, 1):
